@@ -412,7 +412,8 @@ fn nuts_case(_ctx: &Ctx, rep: &mut Report, case: u64, g: &mut Sm64) {
     let inits: Vec<Vec<f64>> = (0..n_chains).map(|_| (0..dim).map(|_| g.normal()).collect()).collect();
     let target = DiagGauss::new((0..dim).map(|i| 0.7 + i as f64 * 0.4).collect(), vec![0.0; dim]);
     let delta = g.uniform(0.5, 0.99);
-    let ctxj = json!({"n_chains": n_chains, "dim": dim, "n_collect": n_collect, "n_discard": n_discard, "seed": seed, "delta": delta});
+    let (n_collect2, n_discard2) = (g.range(1, 6), g.range(0, 12));
+    let ctxj = json!({"n_chains": n_chains, "dim": dim, "n_collect": n_collect, "n_discard": n_discard, "second_run": [n_collect2, n_discard2], "seed": seed, "delta": delta});
     let r = guard(|| {
         let mut multi = NUTS::<f64, B64, DiagGauss>::new(target.clone(), inits.clone(), delta).set_seed(seed);
         let out = tensor3_bits(&multi.run(n_collect, n_discard));
@@ -429,7 +430,16 @@ fn nuts_case(_ctx: &Ctx, rep: &mut Report, case: u64, g: &mut Sm64) {
             let dims = t.dims().to_vec();
             let m = ch.verif_adapt_state().0;
             let pos: Vec<f64> = ch.position.to_data().iter::<f64>().collect();
-            per_chain.push((dims, rows, events, m, pos));
+            // a second run on the same chain: it starts at the last state and performs its own
+            // n_collect2 + n_discard2 - 1 transitions, whatever the chain has done before
+            hook::enable();
+            reset_budget(1 << 16);
+            let t2 = ch.run(n_collect2, n_discard2);
+            reset_budget(u64::MAX);
+            let events2 = hook::take();
+            hook::disable();
+            let rows2: Vec<f64> = t2.to_data().iter::<f64>().collect();
+            per_chain.push((dims, rows, events, m, pos, rows2, events2, ch.verif_adapt_state().0));
         }
         (out, per_chain)
     });
@@ -437,7 +447,14 @@ fn nuts_case(_ctx: &Ctx, rep: &mut Report, case: u64, g: &mut Sm64) {
     let (out, per_chain) = match r {
         Ok(x) => x,
         Err(m) => {
-            rep.violation(&format!("{sig} panic"), mon, case, json!({"panic": m, "ctx": ctxj}));
+            reset_budget(u64::MAX);
+            hook::disable();
+            if m.contains(BUDGET_MSG) {
+                // resumed adaptation after a very short first warm-up can collapse the step size (DESIGN section 7)
+                rep.inconclusive("target-evaluation budget (2^16) exhausted in the second run: trajectories too long to monitor");
+            } else {
+                rep.violation(&format!("{sig} panic"), mon, case, json!({"panic": m, "ctx": ctxj}));
+            }
             return;
         }
     };
@@ -445,7 +462,7 @@ fn nuts_case(_ctx: &Ctx, rep: &mut Report, case: u64, g: &mut Sm64) {
         rep.violation(&format!("{sig} shape"), mon, case, json!({"ctx": ctxj, "shape": out.0}));
         return;
     }
-    for (c, (dims, rows, events, m, pos)) in per_chain.iter().enumerate() {
+    for (c, (dims, rows, events, m, pos, rows2, events2, m2)) in per_chain.iter().enumerate() {
         if dims != &[n_collect, dim] {
             rep.violation("NUTSChain::run shape", mon, case, json!({"ctx": ctxj, "shape": dims}));
             return;
@@ -485,6 +502,27 @@ fn nuts_case(_ctx: &Ctx, rep: &mut Report, case: u64, g: &mut Sm64) {
         if !bits_eq(lastrow, pos) {
             rep.violation("NUTSChain::run sampler-not-left-at-last-returned-state", mon, case, json!({"ctx": ctxj, "chain": c}));
             return;
+        }
+        // second run on the same chain
+        let ends2: Vec<&Vec<f64>> = events2
+            .iter()
+            .filter_map(|e| if let hook::Event::NutsEnd { position, .. } = e { Some(position) } else { None })
+            .collect();
+        let expected2 = n_collect2 + n_discard2 - 1;
+        if ends2.len() != expected2 || *m2 != expected_transitions + expected2 {
+            rep.violation("NUTSChain::run number-of-transitions (second run on the same chain)", mon, case,
+                json!({"ctx": ctxj, "chain": c, "transitions_traced": ends2.len(), "m": m2, "expected": expected2}));
+            return;
+        }
+        for k in 0..n_collect2 {
+            let t = n_discard2 + k;
+            let exp: Vec<f64> = if t == 0 { pos.clone() } else { ends2[t - 1].clone() };
+            let row = &rows2[k * dim..(k + 1) * dim];
+            if !bits_eq(row, &exp) {
+                rep.violation("NUTSChain::run row-k-is-not-state-after-n_discard+k-transitions (second run on the same chain)", mon, case,
+                    json!({"ctx": ctxj, "chain": c, "k": k, "row": row, "expected": exp}));
+                return;
+            }
         }
     }
     rep.held();
